@@ -18,7 +18,7 @@ UNITS = {
     'repair': {'template': 'units/repair/unit.rs', 'serves': ['C14', 'C15', 'C10'], 'min_verified': 30},
     'producer': {'template': 'units/producer/unit.rs', 'serves': ['C10'], 'min_verified': 24},
     'deshred': {'template': 'units/deshred/unit.rs', 'serves': ['C11', 'C13'], 'min_verified': 12},
-    'ingest': {'template': 'units/ingest/unit.rs', 'serves': ['C12', 'C13', 'C16', 'C14'], 'min_verified': 20},
+    'ingest': {'template': 'units/ingest/unit.rs', 'serves': ['C12', 'C13', 'C16', 'C14', 'C10'], 'min_verified': 21},
     'sampler': {'template': 'units/sampler/unit.rs', 'serves': ['C17', 'C16'], 'min_verified': 38},
     'engine': {'template': 'units/engine/unit.rs', 'serves': ['C20'], 'min_verified': 18},
     'trie': {'template': 'units/trie/unit.rs', 'serves': ['C20'], 'min_verified': 95},
